@@ -24,6 +24,11 @@ class HippoLLSDBaseFormatter(base_llsd.base.LLSDBaseFormatter):
         self.type_map[Vector3] = self.TUPLECOORD
         self.type_map[Vector4] = self.TUPLECOORD
         self.type_map[Quaternion] = self.TUPLECOORD
+        # Flavors of bytes we hand out ourselves, these would otherwise get treated
+        # as arrays of ints (or rejected outright in the XML case.)
+        self.type_map[JankStringyBytes] = self.BINARY
+        self.type_map[RawBytes] = self.BINARY
+        self.type_map[bytearray] = self.BINARY
         self.type_map[datetime.datetime] = self._wrap_date(self.type_map[datetime.datetime])
 
     @staticmethod
